@@ -122,6 +122,8 @@ impl<D> DictBuilder<D> {
             // C04: the index section written to the sink files under every key exactly the word ids (dictionary part 0, word number =
             // position in the lexicon) of the indexed entries (left id >= 0) with that key, in lexicon order
             r is Ok ==> exists|trie: Seq<u8>, table: Seq<u8>| #[trigger] section_written(old(w).sink(), final(w).sink(), trie, table)
+                // the reported size is the number of bytes written (write_lexicon adds it to the offset of the word section)
+                && r->Ok_0 == 8 + trie.len() + table.len()
                 && forall|s: Seq<char>| #[trigger] lookup_ids(trie, table, s) == ibucket(old(self).lexicon.sp_entries(), s, old(self).lexicon.sp_entries().len() as int),
 //@  atstart
         let ghost es = self.lexicon.sp_entries();
